@@ -59,6 +59,9 @@ CHECKS = {
  'C20': dict(cat='exploration', tech='bounded exploration of manifests and request histories as choice variables (symx, depth-first in seeded order) through the real WebApp/FrontEnd/JobControl code',
    text='Manifests of 1..2 (thorough 3) entries (file name, optional path, optional title, colours, background flag from pools with HTML metacharacters, path separators, .ls variants, duplicates) and histories of up to 4 (5) requests (listed path, unlisted path, stop/<path>, stop-current, stop-all, status, capture, index) interleaved with job completions: jobs are created only for listed paths, from the listed file, queued or spawned as marked, never twice while reported running; every manifest string in a page context equals html.escape(original) exactly once; default path/title derivation; stop routes reach exactly their targets and stop-all empties the queue; status and capture render.',
    note='flask replaced by a recording stub (no Jinja/routing), ScriptJob by a recording job, job threads completed on demand. Strings come from pools (no symbolic strings); histories beyond the path cap are not explored.', ref='4/C20'),
+ 'C08': dict(cat='exploration', tech='systematic schedule exploration (choice variables with a preemption bound, depth-first via symx) of the real threaded controller code under baton-passing threading shims',
+   text='Eight client scenarios (1..3 client threads issuing add/insert/spawn and status probes; 1..4 jobs; job bodies finishing or raising as a choice variable) run the real JobControl/Agent code under a deterministic scheduler whose decision at every lock/thread operation and every read or write of _queue/_active_agent/_background is a choice variable; every schedule with at most 2 (quick) / 3 (thorough) preemptions is executed and checked for exclusion, head-of-queue start order, exactly-once start, no escaping exception, no deadlock, a drained controller and background bookkeeping.',
+   note='Pure scheduling: the solver engine only enumerates feasible choice vectors. Lock waits never time out; single deque/dict operations are atomic; more threads/jobs/preemptions are outside.', ref='4/C08'),
 }
 PENDING = {
 }
